@@ -22,6 +22,7 @@ import (
 	"strconv"
 	"strings"
 	"time"
+	"unicode/utf8"
 )
 
 // Query represents a PQL query.
@@ -168,6 +169,30 @@ func (q *Query) addVal(val interface{}) {
 	}
 	elem.lastField = ""
 	elem.lastCond = ILLEGAL
+}
+
+// unquote returns the value of a double-quoted string literal (s includes
+// the quotes). Escapes are those of Go string literals; unlike
+// strconv.Unquote a raw newline is accepted, as the grammar does.
+func unquote(s string) string {
+	in := s[1 : len(s)-1]
+	if !strings.ContainsRune(in, '\\') {
+		return in
+	}
+	buf := make([]byte, 0, len(in))
+	for len(in) > 0 {
+		c, multibyte, rest, err := strconv.UnquoteChar(in, '"')
+		if err != nil {
+			panic(fmt.Sprintf("%s: %s", invalidStringError, s))
+		}
+		in = rest
+		if c < utf8.RuneSelf || !multibyte {
+			buf = append(buf, byte(c))
+		} else {
+			buf = utf8.AppendRune(buf, c)
+		}
+	}
+	return string(buf)
 }
 
 func (q *Query) addNumVal(val string) {
